@@ -1191,9 +1191,9 @@ def known_web_drift(sub, case, msg):
 def build(chk: Check) -> None:
     chk.known("C14-web-drift", known_web_drift)
     chk.sub("tile_geobox", o_geobox, strategy=s_geobox(), n={"quick": 3000, "thorough": 150000})
-    chk.sub("pt2idx", o_pt, strategy=s_pt(), n={"quick": 3000, "thorough": 120000})
+    chk.sub("pt2idx", o_pt, cov={"quick": 1500, "thorough": 100000}, strategy=s_pt(), n={"quick": 3000, "thorough": 120000})
     chk.sub("neighbours", o_nb, strategy=s_nb(), n={"quick": 2000, "thorough": 80000})
-    chk.sub("tiles_bbox", o_bbox, strategy=s_bbox(), n={"quick": 4000, "thorough": 200000})
+    chk.sub("tiles_bbox", o_bbox, cov={"quick": 1500, "thorough": 100000}, strategy=s_bbox(), n={"quick": 4000, "thorough": 200000})
     chk.sub("tiles_poly", o_poly, strategy=s_poly(), n={"quick": 3000, "thorough": 120000})
     chk.sub("tiles_poly_crs", o_xcrs, strategy=s_xcrs(), n={"quick": 1200, "thorough": 50000})
     chk.sub("from_sample_tile", o_sample, strategy=s_sample(), n={"quick": 2000, "thorough": 80000})
